@@ -147,7 +147,7 @@ def c07_3(R):
             R.ok("forced-ack:" + name, PIM, "%d trigger edge(s): force_immediate_ack%s on every path to return" % (len(targets), " + send_ack" if need_ack else ""))
 
 
-@rule("C07.4", ["C07"], ["E2", "E7"], "ACK decision: immediate threshold, window update, delayed-ACK timer (non-restarting, 40 ms)",
+@rule("C07.4", ["C07", "C02"], ["E2", "E7"], "ACK decision: immediate threshold, window update, delayed-ACK timer (non-restarting, 40 ms)",
       "maybe_send_ack calls send_ack under immediate_ack_to_transmit() = true, under should_send_window_update() = true, and under ack_delay_timer.expired() = true && ack_to_transmit() = true; "
       "otherwise under consumed_but_unacked_bytes > 0 it arms ack_delay_timer with (constants::ACK_DELAY, restart = false): a restarting arm would let a packet stream postpone the ACK forever.")
 def c07_4(R):
